@@ -6,6 +6,7 @@ import (
 	"sort"
 	"strconv"
 	"strings"
+	"time"
 
 	"github.com/titpetric/vuego"
 	"github.com/titpetric/vuego/zverif/vsync"
@@ -44,6 +45,7 @@ var c17Ops = []string{"pushnil", "pushA", "pushB", "pop", "setA", "setB", "setF"
 // c17Nil models a binding whose value is nil: the name is bound (it shadows outer bindings
 // and struct fields), its value is nothing.
 const c17Nil = "\x00nil"
+
 var c17Names = []string{"a", "b", "F", "g", "zz", "G"}
 
 // reference model
@@ -493,6 +495,10 @@ func (c *c17Case) runPath(ctx *core.Ctx) {
 			}
 			if ok {
 				rv := reflect.ValueOf(cur)
+				// a pointer to a collection is a collection for a loop, as it is for an index step
+				for rv.IsValid() && rv.Kind() == reflect.Ptr && !rv.IsNil() && (rv.Elem().Kind() == reflect.Ptr || rv.Elem().Kind() == reflect.Slice || rv.Elem().Kind() == reflect.Array || rv.Elem().Kind() == reflect.Map) {
+					rv = rv.Elem()
+				}
 				switch rv.Kind() {
 				case reflect.String:
 					if !gsok || gs != rv.String() {
@@ -524,7 +530,7 @@ func (c *c17Case) runPath(ctx *core.Ctx) {
 						}
 					}
 				case reflect.Map:
-					if m, isAny := cur.(map[string]any); isAny {
+					if m, isAny := rv.Interface().(map[string]any); isAny && rv.Type() == reflect.TypeOf(cur) {
 						if gm, gmok := st.GetMap(p); !gmok || len(gm) != len(m) {
 							ctx.Violation("accessor", "GetMap/"+kc, "map", fmt.Sprintf("value %s path %q: GetMap = %v, %v; the value is %#v", c.Value, p, gm, gmok, cur))
 						}
@@ -599,7 +605,146 @@ func stepClass(steps []string) string {
 	return strings.Join(cs, ".")
 }
 
+// ---- deep part: the merged environment of struct root data agrees with Resolve all the way down
+
+type c17User struct {
+	Name string     `json:"name"`
+	Boss *c17User   `json:"boss"`
+	Tags []string   `json:"tags"`
+	Seen *time.Time `json:"seen"`
+}
+
+type c17Page struct {
+	Author   *c17User  `json:"author"`
+	Editor   *c17User  `json:"editor"`
+	Reviewer *c17User  `json:"reviewer"`
+	Nobody   *c17User  `json:"nobody"`
+	Owner    c17User   `json:"owner"`
+	When     time.Time `json:"when"`
+}
+
+type c17Deep struct {
+	Page  c17Page  `json:"page"`
+	Again *c17Page `json:"again"`
+	Title string   `json:"title"`
+}
+
+// c17DeepRoot builds root data whose pointers are shared (a DAG), distinct, nil or cyclic.
+func c17DeepRoot(shape string) c17Deep {
+	ts := time.Date(2024, 3, 1, 0, 0, 0, 0, time.UTC)
+	ann := &c17User{Name: "Ann", Tags: []string{"x"}, Seen: &ts}
+	bob := &c17User{Name: "Bob", Boss: ann}
+	d := c17Deep{Title: "T", Page: c17Page{Author: ann, Editor: bob, Reviewer: &c17User{Name: "Rev"}, Owner: c17User{Name: "Own"}, When: ts}}
+	switch shape {
+	case "shared": // the same pointer under two fields, and once more one level down
+		d.Page.Editor = ann
+		d.Page.Reviewer = ann
+	case "shared-page": // a pointer to a struct that also appears by value
+		pg := d.Page
+		d.Again = &pg
+	case "cycle":
+		ann.Boss = bob // ann -> bob -> ann
+	case "self":
+		ann.Boss = ann
+	}
+	return d
+}
+
+var c17DeepPaths = []string{"title", "page.author.name", "page.editor.name", "page.reviewer.name", "page.nobody", "page.owner.name", "page.editor.boss.name", "page.author.tags", "page.author.boss", "again.author.name", "again.editor.name", "again.owner.name", "page.reviewer.boss.name", "page.when", "page.author.seen", "again.when"}
+
+func (c *c17Case) runDeep(ctx *core.Ctx) {
+	ctx.NonTrivial()
+	root := c17DeepRoot(c.Value)
+	var data any = root
+	if c.Root == "ptr" {
+		data = &root
+	}
+	st := vuego.NewStackWithData(map[string]any{}, data)
+	walk := func(env map[string]any, p string) (any, bool) {
+		var cur any = env
+		for _, step := range strings.Split(p, ".") {
+			m, ok := cur.(map[string]any)
+			if !ok {
+				return nil, false
+			}
+			cur, ok = m[step]
+			if !ok {
+				return nil, false
+			}
+		}
+		return cur, true
+	}
+	leaf := func(v any) string {
+		switch t := v.(type) {
+		case nil:
+			return "<nil>"
+		case string:
+			return t
+		case []string:
+			return fmt.Sprint(t)
+		case time.Time:
+			return "time:" + t.Format(time.RFC3339)
+		case *time.Time:
+			if t == nil {
+				return "<nil>"
+			}
+			return "time:" + t.Format(time.RFC3339)
+		}
+		rv := reflect.ValueOf(v)
+		if rv.Kind() == reflect.Ptr && rv.IsNil() {
+			return "<nil>"
+		}
+		if rv.Kind() == reflect.Map {
+			return fmt.Sprintf("<map of %d>", rv.Len())
+		}
+		return fmt.Sprintf("<%s>", rv.Kind())
+	}
+	for _, env := range []struct {
+		name string
+		m    map[string]any
+	}{{"EnvMap", st.EnvMap()}, {"Copy.EnvMap", st.Copy().EnvMap()}} {
+		for _, p := range c17DeepPaths {
+			ctx.Eval(1)
+			rv, rok := st.Resolve(p)
+			ev, eok := walk(env.m, p)
+			// compare what a template can tell apart: presence, and the leaf's text
+			if rok && leaf(rv) != "<nil>" && strings.HasPrefix(leaf(rv), "<") {
+				// a struct / pointer on one side is a map on the other: compare presence only
+				if !eok {
+					ctx.Violation("envmap-deep", env.name+"/"+c.Value, "missing:"+p, fmt.Sprintf("Resolve(%q) finds %T, %s has nothing there", p, rv, env.name))
+				}
+				continue
+			}
+			want := "<nil>"
+			if rok {
+				want = leaf(rv)
+			}
+			got := "<nil>"
+			if eok {
+				got = leaf(ev)
+			}
+			if got != want {
+				ctx.Violation("envmap-deep", env.name+"/"+c.Value, p, fmt.Sprintf("root %s (%s): Resolve(%q) = %q but walking %s gives %q", c.Value, c.Root, p, want, env.name, got))
+			}
+		}
+	}
+	// the same through a template: a path read directly and read inside an expression
+	for _, p := range []string{"page.author.name", "page.editor.name", "page.reviewer.name", "page.owner.name"} {
+		ctx.Eval(1)
+		out, err := renderString(`<i>{{ `+p+` }}</i><b>{{ `+p+` + '' }}</b>`, data)
+		rv, _ := st.Resolve(p)
+		want := fmt.Sprintf("<i>%v</i><b>%v</b>", rv, rv)
+		if err != nil || strings.Join(strings.Fields(out), "") != want {
+			ctx.Violation("envmap-deep", "template/"+c.Value, p, fmt.Sprintf("root %s: template printed %q (err %v), want %q", c.Value, out, err, want))
+		}
+	}
+}
+
 func (c *c17Case) Run(ctx *core.Ctx) {
+	if c.Part == "deep" {
+		c.runDeep(ctx)
+		return
+	}
 	if c.Part == "history" {
 		c.runHistory(ctx)
 		return
@@ -612,6 +757,7 @@ func init() {
 		ID:    "C17",
 		Level: "model_checking",
 		Rule: "history part: explicit-state search over all sequences of {Push(nil), Push({a}), Push({b,g}), Pop, Set a/b/F/g, Set(a, nil), Push({g: nil, F: nil}), Push(a map the caller keeps and pushes again), Copy, swap active stack} up to the bound, for root data nil / map / struct / *struct / typed map / struct with the fields promoted from an embedded struct, replayed on a fresh Stack with a deterministic LIFO pool; after every operation Lookup, Resolve, GetString and EnvMap of 5 names (incl. a struct field name and a JSON tag) are compared with a list-of-maps reference model and the inactive copy must be unchanged. " +
+			"deep part: struct root data three levels deep whose pointers are distinct, shared (a DAG), nil or cyclic: 16 paths (incl. time.Time values and pointers to them) walked through EnvMap() and Copy().EnvMap() agree with Resolve, and a template reads the same value directly and inside an expression; " +
 			"path part: every path of <=3 steps over 9 step names in 3 syntaxes into every nested value of depth <=3 over 12 container/leaf kinds (incl. a struct whose JSON tag collides with a later field's Go name), against ordinary Go indexing by reflection; GetString / GetInt / GetSlice / GetMap / ForEach on the same path agree with what Resolve returned. non-trivial = all",
 		Bounds:      map[string]string{"quick": "histories of <=5 operations; paths of <=3 steps into values nested <=3 deep", "thorough": "histories of <=6 operations; same paths"},
 		Assumptions: []string{"Pop without a matching Push is unconstrained", "a present key whose value is nil and maps with non-string keys are unconstrained", "the Go name of a JSON-tagged root field is not queried in the history part (recorded finding of C08)"},
@@ -626,6 +772,11 @@ func init() {
 					for _, o2 := range c17Ops {
 						emit(&c17Case{Part: "history", Root: root, Prefix: []string{o1, o2}, Depth: depth})
 					}
+				}
+			}
+			for _, shape := range []string{"plain", "shared", "shared-page", "cycle", "self"} {
+				for _, root := range []string{"struct", "ptr"} {
+					emit(&c17Case{Part: "deep", Value: shape, Root: root})
 				}
 			}
 			var descs []string
